@@ -212,7 +212,16 @@ func checkC11(c *Ctx) {
 			}
 		}
 		nread := len(callsIn(pr, func(n string, _ *ssa.CallCommon) bool { return n == "(*bytes.Buffer).ReadByte" }))
-		c.Check(ok && nread >= 2, "C11-R2", "parseRune:consumes-nSrc", p.pos(pl.call.Pos()), "ReadByte loop counts down from Transform's nSrc result")
+		// or in one step: buf.Next(nSrc)
+		viaNext := false
+		if pl.nSrc != nil {
+			for _, r := range referrers(pl.nSrc) {
+				if call, isCall := r.(*ssa.Call); isCall && calleeName(&call.Call) == "(*bytes.Buffer).Next" && len(call.Call.Args) == 2 && call.Call.Args[1] == pl.nSrc {
+					viaNext = true
+				}
+			}
+		}
+		c.Check((ok && nread >= 2) || viaNext, "C11-R2", "parseRune:consumes-nSrc", p.pos(pl.call.Pos()), "as many bytes are removed as Transform reports consumed (ReadByte loop counting down from nSrc, or Next(nSrc))")
 	}
 	// R3
 	pb := p.Fn("tcell:(*tScreen).prepareBracketedPaste")
